@@ -70,7 +70,7 @@ class C17(Check):
     required_probes = [
         "crash_points_enumerated", "lost_writes_enumerated", "load_rejected_incomplete", "load_accepted_complete",
         "special_values", "markers_eq_dim", "overwrite", "foreign_file", "param_mismatch_reader", "rod_io", "eulerian_io",
-        "grid_without_fields", "recovery_after_failed_save", "post_hoc_delete",
+        "grid_without_fields", "recovery_after_failed_save", "post_hoc_delete", "reader_object_reused",
     ]
     tiers = {
         "quick": {"runs": 640, "batch": 8, "timeout": 300},
@@ -160,6 +160,17 @@ class C17(Check):
         n_ios = rng.choice([1, 1, 2])
         used = set()
         ios = [self._draw_spec(rng, dim, used) for _ in range(n_ios)]
+        if rng.random() < 0.3 and ios[0]["grid"] and ios[0]["efields"]:
+            # a second writer on a grid with the same cell count but another origin / spacing:
+            # its files look alike to a reader of the first registration
+            twin = copy.deepcopy(ios[0])
+            if rng.random() < 0.5:
+                twin["grid"]["origin"][rng.randrange(dim)] += rng.choice([1.0, -2.0, 0.5])
+            else:
+                twin["grid"]["dx"] *= rng.choice([2.0, 0.5, 1.25])
+            twin["twin_of"] = 0
+            ios = [ios[0], twin]
+            n_ios = 2
         readers = []  # extra reader-only specs
         for i in range(n_ios):
             if rng.random() < 0.5:
@@ -192,7 +203,7 @@ class C17(Check):
                     j = wi
                 else:
                     j = rng.randrange(len(specs))
-                ops.append({"op": "load", "io": j, "file": f})
+                ops.append({"op": "load", "io": j, "file": f, "reuse": rng.random() < 0.5})
             else:
                 f, wi = rng.choice(saved)
                 ops.append({"op": "delete", "file": f, "pick": rng.randrange(1000)})
@@ -448,16 +459,28 @@ class C17(Check):
                             if not ok:
                                 res.violation("layout", {"what": "lag_scalar", "dup_field": dup}, f"Lagrangian scalar {fld['name']} on {gnames[gi]}: dataset {None if ds is None else ds.shape}, expected ({n},)")
 
-        def load(j, f, tag):
-            """Fresh reader from spec j loads file f; full oracle."""
+        readers = {}
+
+        def load(j, f, tag, reuse=False):
+            """Reader built from spec j (fresh, or a long-lived one reused) loads file f; full oracle."""
             nonlocal did_load
             spec = specs[j]
             T = truth[f]
             wspec = writers[T["writer"]]["spec"]
             F = T["model"]
             present = (set(F.datasets) - T["deleted"])
-            arrs = self._alloc(spec, dim, real_t)
-            io, extra = self._build(spec, dim, real_t, arrs, rod_variant=1)
+            if reuse and j in readers:
+                io, arrs, extra = readers[j]
+                for a in arrs.values():
+                    a[...] = SENTINEL  # freshly allocated content, same long-lived reader object
+                if spec["cls"] == "CosseratRodIO":
+                    io.rod_element_position[...] = SENTINEL
+                    extra["rod"].radius[...] = SENTINEL
+                res.probe("reader_object_reused")
+            else:
+                arrs = self._alloc(spec, dim, real_t)
+                io, extra = self._build(spec, dim, real_t, arrs, rod_variant=1)
+                readers[j] = (io, arrs, extra)
             raised = None
             t_ret = None
             try:
@@ -613,7 +636,7 @@ class C17(Check):
                 f = op["file"]
                 if f not in truth:
                     continue
-                load(op["io"] % len(specs), f, truth[f].get("tag", "none"))
+                load(op["io"] % len(specs), f, truth[f].get("tag", "none"), reuse=bool(op.get("reuse")))
             elif kind == "delete":
                 f = op["file"]
                 if f not in truth:
